@@ -5,7 +5,7 @@ From Coq Require Import List Bool String ZArith.
 Import ListNotations.
 From JV Require Import Model.SbxAttr Model.SbxAccess Model.SbxGen Proofs.SbxAccessProofs Proofs.SbxGenProofs.
 From JV Require Model.SbxCall Proofs.SbxCallProofs.
-From JV Require Import Model.SbxFold Proofs.SbxFoldProofs.
+From JV Require Import Model.SbxFold Proofs.SbxFoldProofs Model.SbxRoute Proofs.SbxRouteProofs.
 Open Scope string_scope.
 
 (* The value of an attribute (or the sandboxed wrapper of a bound str.format / format_map found
@@ -28,6 +28,14 @@ Proof.
   - exact (do_attr_value_safe tb o a v (or_intror H)).
 Qed.
 Print Assumptions C17_no_private_attr.
+
+(* a subscript key that is an instance of a str subclass (compares like [c], str() gives [a]): the
+   attribute is fetched under str(key) and that same name is the one checked *)
+Theorem C17_str_subclass_key_checked : forall tb o c a v,
+  sandbox_getitem tb o (KSub c a) = RValue v \/ sandbox_getitem tb o (KSub c a) = RFormat v ->
+  starts_underscore a = false /\ is_internal_attribute tb (kind_of o) a = false.
+Proof. intros tb o c a v H. exact (safe_means_public _ _ _ (getitem_subkey_value_safe tb o c a v H)). Qed.
+Print Assumptions C17_str_subclass_key_checked.
 
 (* an integer subscript never yields an attribute *)
 Theorem C17_int_subscript_is_item_only : forall tb o z v,
@@ -85,6 +93,19 @@ Print Assumptions C17_codegen_no_raw_attr.
 Theorem C17_codegen_no_raw_attr_expr : forall m e, no_raw (gen m e) = true.
 Proof. exact gen_no_raw. Qed.
 Print Assumptions C17_codegen_no_raw_attr_expr.
+
+(* The routing constructors [gen] chooses are the tokens the emission model Model/SbxRoute writes; the
+   regenerated decision table of compiler.visit_Getattr / visit_Getitem (gen/sbx_route.py) is compared
+   with that model on every run, for every (sandboxed, async, slice) condition. *)
+Theorem C17_codegen_routes_as_emitted : forall m e a i lo hi st,
+  In (first_write (gen m (EGetattr e a))) (route_getattr m) /\
+  In (first_write (gen m (EGetitem e i))) (route_getitem m false) /\
+  In (first_write (gen m (ESlice e lo hi st))) (route_getitem m true).
+Proof.
+  intros m e a i lo hi st. split; [exact (gen_getattr_route m e a)|].
+  split; [exact (gen_getitem_route m e i)|exact (gen_slice_route m e lo hi st)].
+Qed.
+Print Assumptions C17_codegen_routes_as_emitted.
 
 (* Stored method references that did NOT come through getattr / getitem — a bound str.format,
    str.format_map or Markup.format the host put into the render data, directly or inside a dict /
